@@ -79,21 +79,37 @@ def cmd_run(a):
             continue
         meta = json.load(open(os.path.join(d, "meta.json")))
         props = a.props.split(",") if a.props else [meta["property"]]
-        st = sh(["git", "-C", "/repo", "status", "--porcelain", "--untracked-files=no"]).stdout.strip()
-        assert not st, "/repo is dirty: " + st
-        r = sh(["git", "-C", "/repo", "apply", os.path.join(d, "patch.diff")])
+        copy = None
+        if a.copy:
+            # a scratch copy under /tmp (used while something else is running from /repo); removed afterwards
+            copy = "/tmp/rtmon-seed-%s" % sid
+            shutil.rmtree(copy, ignore_errors=True)
+            os.makedirs(copy)
+            shutil.copytree("/repo/svgelements", os.path.join(copy, "svgelements"))
+            r = sh(["patch", "-p1", "-s", "-i", os.path.join(d, "patch.diff")], cwd=copy)
+        else:
+            st = sh(["git", "-C", "/repo", "status", "--porcelain", "--untracked-files=no"]).stdout.strip()
+            assert not st, "/repo is dirty: " + st
+            r = sh(["git", "-C", "/repo", "apply", os.path.join(d, "patch.diff")])
         if r.returncode != 0:
-            print(sid, "patch does not apply to /repo:", r.stderr[:200])
+            print(sid, "patch does not apply to /repo:", (r.stderr or r.stdout)[:200])
+            if copy:
+                shutil.rmtree(copy, ignore_errors=True)
             continue
         try:
             res = {}
             for pid in props:
                 env = dict(os.environ, RTMON_NO_EVIDENCE="1")
+                if copy:
+                    env["RTMON_TARGET"] = copy
                 c = sh([os.path.join(ROOT, "check"), pid, "--tier", a.tier], cwd=ROOT, env=env)
                 keys = [l.strip()[4:].split(" count=")[0] for l in c.stdout.splitlines() if l.strip().startswith("key=")]
                 res[pid] = {"exit": c.returncode, "keys": keys[:6]}
         finally:
-            sh(["git", "-C", "/repo", "checkout", "--", "."])
+            if copy:
+                shutil.rmtree(copy, ignore_errors=True)
+            else:
+                sh(["git", "-C", "/repo", "checkout", "--", "."])
         caught = any(v["exit"] == 1 for v in res.values())
         meta.setdefault("checks", {}).setdefault(a.tier, {}).update(res)
         meta["caught"] = caught or meta.get("caught", False)
@@ -133,6 +149,7 @@ r = sub.add_parser("run")
 r.add_argument("id")
 r.add_argument("--tier", default="quick")
 r.add_argument("--props")
+r.add_argument("--copy", action="store_true")
 sub.add_parser("report")
 a = ap.parse_args()
 sys.exit(cmd_import(a) if a.cmd == "import" else (cmd_report(a) if a.cmd == "report" else cmd_run(a)))
